@@ -8,6 +8,7 @@ mod frontend;
 mod ty;
 mod c27;
 mod c22;
+mod c23;
 mod lean;
 mod report;
 mod rng;
@@ -63,6 +64,7 @@ fn main() {
                 "C03" => c03::replay(&f["input"]),
                 "C27" => c27::replay(&f["input"]),
                 "C22" => c22::replay(&f["input"]),
+                "C23" => c23::replay(&f["input"]),
                 _ => "replay not implemented for this property".to_string(),
             };
             println!("input: {}\n{}", f["input"], out);
@@ -91,6 +93,7 @@ fn main() {
         "C03" => c03::run(&tier, seed, widen),
         "C27" => c27::run(&tier, seed, widen),
         "C22" => c22::run(&tier, seed, widen),
+        "C23" => c23::run(&tier, seed, widen),
         _ => {
             eprintln!("unknown property {prop}");
             std::process::exit(2);
